@@ -200,12 +200,35 @@ func (e *enc) event(s flows.Session, ev flows.Event) {
 		e.n(7)
 	case *events.DialEndedEvent:
 		e.n(8)
-	case *events.FailureEvent:
-		e.n(9, failCode(t.Text))
 	default:
-		e.n(98)
-		e.text(ev.Type())
+		if txt, ok := failureText(ev); ok {
+			e.n(9, failCode(txt))
+		} else {
+			e.n(98)
+			e.text(ev.Type())
+		}
 	}
+}
+
+// failureText recognises failure events by their type name: a failure event that was read back from
+// session JSON is an *events.ErrorEvent in Go (events/failure.go registers that constructor), with the
+// same JSON.
+func failureText(ev flows.Event) (string, bool) {
+	if ev.Type() != events.TypeFailure {
+		return "", false
+	}
+	switch t := ev.(type) {
+	case *events.FailureEvent:
+		return t.Text, true
+	case *events.ErrorEvent:
+		return t.Text, true
+	}
+	var m struct {
+		Text string `json:"text"`
+	}
+	b, _ := json.Marshal(ev)
+	json.Unmarshal(b, &m)
+	return m.Text, true
 }
 
 func b2i(b bool) int {
@@ -413,6 +436,7 @@ func (w *world) resume(s flows.Session, op *Op) (*CallObs, flows.Session) {
 			obs.Err = "faulted assets not loadable: " + err.Error()
 			return obs, s
 		}
+		w.eng = newEngine(op.Assets.Opts) // the options are part of the faulted configuration
 	}
 	if op.Assets != nil || op.Restart {
 		b := mustJSON(s)
